@@ -58,6 +58,15 @@ def gen(tier, seed):
             yield 'aead_dec %d %s %s %s %s %s' % (rounds, key.hex(), nonce.hex(), aad.hex() or '-', ct.hex() or '-', tag.hex())
             yield 'aead_inc %d %s %s %s E %s fin' % (rounds, key.hex(), nonce.hex(), ' '.join(partition(rng, aad, ['a'], 'random')), ' '.join(partition(rng, pt, ['e', 'em'], 'random')))
             yield 'aead_inc %d %s %s %s D %s fin.%s' % (rounds, key.hex(), nonce.hex(), ' '.join(partition(rng, aad, ['a'], 'random')), ' '.join(partition(rng, ct, ['d', 'dm'], 'random')), tag.hex())
+    # associated data longer than 2^32 bytes (the 64-bit length trailer): zeros fed in chunks, oracle by closed form
+    import struct
+    for n in ([(1 << 32) + 5] if not thorough else [(1 << 32) + 5, (1 << 32), (1 << 33) + 17]):
+        key, nonce = rng.bytes(32), rng.bytes(12)
+        pt = rng.bytes(37)
+        yield 'aead_inc 20 %s %s az.%d.%d E e.%s fin' % (key.hex(), nonce.hex(), n, 1 << 20, pt.hex())
+    for n in (0x10005, 0x1000010):      # moderate sizes through the same path (also checked against the plain model below)
+        key, nonce = rng.bytes(16), rng.bytes(12)
+        yield 'aead_inc 20 %s %s az.%d.%d E em.%s fin' % (key.hex(), nonce.hex(), n, 4099, rng.bytes(20).hex())
     # larger random sizes
     for _ in range(150 if thorough else 25):
         kl = rng.choice([16, 32]); key, nonce = rng.bytes(kl), rng.bytes(12)
@@ -76,7 +85,7 @@ def check(line, toks):
 def shape(line):
     f = line.split()
     if f[0] == 'aead_inc':
-        al = sum(spec_len(s[2:]) for s in f[4:] if s.startswith('a.'))
+        al = sum(spec_len(s[2:]) for s in f[4:] if s.startswith('a.')) + sum(int(s.split('.')[1]) for s in f[4:] if s.startswith('az.'))
         steps = [s for s in f[4:] if s.split('.')[0] in ('e', 'em', 'd', 'dm')]
         dl = sum(spec_len(s.split('.')[1]) for s in steps)
         return (f[0], f[1], spec_len(f[2]), al, dl, tuple((s.split('.')[0], spec_len(s.split('.')[1])) for s in steps))
